@@ -903,14 +903,18 @@ class Interp:
             return o
         if isinstance(node, ast.Dict):
             keys = []
+            kvals = []
             for kx in node.keys:
                 if kx is None:
                     raise Unsupported('dict unpacking in display')
-                kv = self.eval(kx, env)
-                if not (isinstance(kv, StrV) and kv.value is not None):
+                kvals.append(self.eval(kx, env))
+            vals = [self.eval(vx, env) for vx in node.values]
+            if not all(isinstance(kv, StrV) and kv.value is not None for kv in kvals):
+                fac = self.loops.get('dict_factory')
+                if fac is None:
                     raise Unsupported('non-literal dict key')
-                keys.append(kv.value)
-            return DictV(dict(zip(keys, [self.eval(vx, env) for vx in node.values])))
+                return fac(self.path, list(zip(kvals, vals)))      # a dict keyed by values: given by the contract
+            return DictV(dict(zip([kv.value for kv in kvals], vals)))
         raise Unsupported('expression %s' % type(node).__name__)
 
     def comprehension(self, node, env):
@@ -1125,6 +1129,9 @@ class Interp:
         if isinstance(o, ListV):
             if attr == 'append':
                 def _append(p, args, kw, _o=o):
+                    hook = p.ghost.get('list_append_hook')
+                    if hook is not None and hook(_o, args[0]):
+                        return NONE
                     _o.items.append(args[0])
                     return NONE
                 return FuncV('list.append', _append)
